@@ -17,6 +17,7 @@ line is certainly invalid is recorded as errored by the client.  What happens
 to the malformed connection itself (answered, left waiting, closed) is only
 classified and counted.
 """
+from vf import net
 import socket
 import time
 
@@ -86,7 +87,7 @@ class RawMem(object):
 
 class RawLoop(object):
     def __init__(self, pair):
-        self.s = socket.create_connection(("127.0.0.1", pair.port), timeout=2)
+        self.s = socket.create_connection((net.host(), pair.port), timeout=2)
         self.s.setblocking(False)
         self.rx = bytearray()
         self.eof = False
